@@ -276,6 +276,7 @@ static const double CORE_INT[] = {-1, 0, 1, 2, 5};
 // At integer-only positions the huge member 1e8 is replaced by BIG_INT: GSL's recurrences are O(n), a single call
 // with n = 1e8 costs 0.6-2.3 CPU seconds (measured), which no exhaustive tuple enumeration can afford.
 static const double BIG_INT = 1000;
+static const double BEYOND_32BIT = 4294967297.0;     // 2^32 + 1: wraps to 1 under a cast to a 32-bit integer
 
 struct Space {                       // tuple space of one (function, arity)
   int n; std::vector<std::vector<double>> vals;   // per position
@@ -366,6 +367,12 @@ static void run_tuple(const Fn& f, int n, const std::vector<bool>& ip, const dou
     if (!g_random && !same_bits(r, r2, n, mode, &what))
       viol(f, "nondeterministic " + what, x, n, ctx + ",\"first\":" + num17(r.v) + ",\"second\":" + num17(r2.v) +
            ",\"msg1\":\"" + vx::jesc(r.msg) + "\",\"msg2\":\"" + vx::jesc(r2.msg) + "\"");
+    if (!r.err && mode == 0) {
+      for (int i = 0; i < n; ++i) if (ip[i] && x[i] == BEYOND_32BIT) {
+        viol(f, "integer-only argument " + std::to_string(i) + " = 2^32+1 accepted without an error (silently truncated)", x, n, ctx + ",\"value\":" + num17(r.v));
+        break;
+      }
+    }
     if (r.err) {
       ++st.err;
       st.cls |= 1ULL << (mode * 5 + (r.kind == 'v' ? O_ERR : r.kind == 'd' ? O_DERR : O_HERR));
@@ -440,6 +447,7 @@ static std::vector<double> position_values(const double* lat, int nlat, bool is_
   if (is_int) {
     for (double& d : v) if (d == 1e8) d = BIG_INT;
     if (std::find(v.begin(), v.end(), 5.0) == v.end()) v.insert(v.end() - 1, 5.0);   // small integers {-1,0,1,2,5}
+    v.insert(v.end() - 1, BEYOND_32BIT);       // integral, but no int / unsigned parameter of GSL can hold it
   }
   return v;
 }
